@@ -23,6 +23,19 @@ func (sim *Simulation) IsValid(target key.TargetID) bool {
 	return false
 }
 
+// true while the target has not been removed from the battlefield by a death check (a target
+// killed in limbo at the end of a turn keeps its limbo state but is gone)
+func (sim *Simulation) onField(target key.TargetID) bool {
+	for _, list := range [][]key.TargetID{sim.characters, sim.enemies, sim.neutrals} {
+		for _, t := range list {
+			if t == target {
+				return true
+			}
+		}
+	}
+	return false
+}
+
 func (sim *Simulation) IsAlive(target key.TargetID) bool {
 	return sim.Attr.IsAlive(target)
 }
